@@ -256,6 +256,18 @@ func (c *Ctx) Eq(x, y *Term) *Term {
 	return c.app(OpEq, 0, false, 0, 0, x, y)
 }
 
+// SameFP is SMT structural equality on floats: identical terms are equal,
+// NaN equals NaN, +0 differs from -0.
+func (c *Ctx) SameFP(x, y *Term) *Term {
+	if x == y {
+		return c.True
+	}
+	if x.ID > y.ID {
+		x, y = y, x
+	}
+	return c.app(OpEq, 0, false, 0, 0, x, y)
+}
+
 // ---- bit-vectors
 func (c *Ctx) Bin(op Op, x, y *Term) *Term {
 	if x.W != y.W {
@@ -429,6 +441,12 @@ func evalOp(t *Term, arg func(i int) uint64) uint64 {
 		}
 		return arg(2)
 	case OpEq:
+		if t.Args[0].FP {
+			x, y := fval(arg(0), aw), fval(arg(1), aw)
+			if x != x && y != y {
+				return 1
+			}
+		}
 		return b2u(arg(0) == arg(1))
 	case OpAdd:
 		return (arg(0) + arg(1)) & m
